@@ -27,3 +27,25 @@ package tglib
 //@ ensures dlcount: vc.Imp(ue != nil && msg != nil && securityContextAvailable && perr0 == nil, ue.DLCount.Get() == vcDL0(old(ue.DLCount.Get()), newSecurityContext))
 //@ assigns &ue.ULCount, &ue.DLCount
 //@ assigns global free5gclib/nas/security/snow3g.lfsr free5gclib/nas/security/snow3g.fsm
+
+
+//@ func NASDecode
+//@ prop C10
+//@ opaque snow3gspec.S1 snow3gspec.S2 snow3gspec.MULa snow3gspec.DIVa snow3gspec.Init snow3gspec.Step snow3gspec.Out snow3gspec.Iter nasalg.MUL64 nasalg.MULxPOW64 nasalg.EIA1Fold nasalg.EEA1KeystreamByte nasalg.EEA2KeystreamByte
+//@ maynil ue payload
+//@ requires algs: ue == nil || ((ue.IntegrityAlg == 1 || ue.IntegrityAlg == 2) && ue.CipheringAlg <= 2)
+//@ requires sht: securityHeaderType <= 4
+//@ requires shape: payload == nil || securityHeaderType == 0 || (len(payload) >= 8 && len(payload) < 1<<16)
+//@ let in0 := append([]byte(nil), payload...)
+//@ let est := vcEstimate(vcDL(ue), securityHeaderType, in0)
+//@ ensures nilargs: vc.Imp(ue == nil || payload == nil, err != nil)
+//@ ensures plain: vc.Imp(ue != nil && payload != nil && securityHeaderType == 0, vc.GhostLen("nas.decode") == 1 && vcSame(vc.GhostBytes("nas.decode", 0), in0))
+//@ ensures plaincount: vc.Imp(ue != nil && payload != nil && securityHeaderType == 0, ue.DLCount.Get() == old(vcDL(ue)))
+//@ ensures count: vc.Imp(ue != nil && payload != nil && securityHeaderType != 0, ue.DLCount.Get() == est)
+//@ ensures once: vc.Imp(ue != nil && payload != nil && securityHeaderType != 0, vc.GhostLen("nas.decode") == 1 && len(vc.GhostBytes("nas.decode", 0)) == len(in0)-7)
+//@ ensures clear: vc.Imp(ue != nil && payload != nil && securityHeaderType != 0 && (ue.CipheringAlg == 0 || !vcCiphered(securityHeaderType)), vc.Forall(0, len(in0)-7, func(j int) bool { return vc.GhostBytes("nas.decode", 0)[j] == in0[7+j] }))
+//@ ensures nea1: vc.Imp(ue != nil && payload != nil && ue.CipheringAlg == 1 && vcCiphered(securityHeaderType), vc.Forall(0, len(in0)-7, func(j int) bool { return vc.GhostBytes("nas.decode", 0)[j] == in0[7+j]^nasalg.EEA1KeystreamByte(ue.KnasEnc, est, 1, 1, j) }))
+//@ ensures nea2: vc.Imp(ue != nil && payload != nil && ue.CipheringAlg == 2 && vcCiphered(securityHeaderType), vc.Forall(0, len(in0)-7, func(j int) bool { return vc.GhostBytes("nas.decode", 0)[j] == in0[7+j]^nasalg.EEA2KeystreamByte(ue.KnasEnc, est, 1, 1, j) }))
+//@ ensures result: vc.Imp(ue != nil && payload != nil, msg != nil || err != nil)
+//@ assigns &ue.DLCount
+//@ assigns global free5gclib/nas/security/snow3g.lfsr free5gclib/nas/security/snow3g.fsm
